@@ -112,19 +112,22 @@ Lemma size_ad_head_step : forall p k g vc bh cb l i h,
   size (l :: p) <= size (fst (ad_head_step p k g vc bh cb (l, i) h) :: p).
 Proof.
   intros p k g vc bh cb l i [[f a] pr]. unfold ad_head_step.
-  repeat match goal with |- context [app_node p ?l ?n] =>
-    change (app_node p l n) with (fst (app_node p l n), size (l :: p)); cbv beta iota end.
-  simpl fst.
-  match goal with |- _ <= size (add_clause_node p ?l4 _ _ _ _ _ _ :: p) =>
-    pose proof (size_add_clause_node p l4 (FU f) a (Some pr) (size (fst (app_node p (fst (app_node p (fst (app_node p l (NChoice g i (t_app f a) (var_args vc) (Some pr)))) (NCallChoice g i (t_app f a) (var_args vc) (size (l :: p))))) (NCall (FBody k) bh cb)) :: p)) vc (Some g)) as H
-  end.
-  rewrite !size_app in H. rewrite !size_app. lia.
+  pose proof (size_app p l (NChoice g i (t_app f a) (var_args vc) (Some pr))) as S1.
+  destruct (app_node p l (NChoice g i (t_app f a) (var_args vc) (Some pr))) as [l1 cn]. simpl fst in S1.
+  pose proof (size_app p l1 (NCallChoice g i (t_app f a) (var_args vc) cn)) as S2.
+  destruct (app_node p l1 (NCallChoice g i (t_app f a) (var_args vc) cn)) as [l2 cc]. simpl fst in S2.
+  pose proof (size_app p l2 (NCall (FBody k) bh cb)) as S3.
+  destruct (app_node p l2 (NCall (FBody k) bh cb)) as [l3 bc]. simpl fst in S3.
+  pose proof (size_app p l3 (NConj bc cc)) as S4.
+  destruct (app_node p l3 (NConj bc cc)) as [l4 cj]. simpl fst in S4.
+  pose proof (size_add_clause_node p l4 (FU f) a (Some pr) cj vc (Some g)) as S5.
+  cbn [fst]. lia.
 Qed.
 
 Lemma size_ad_fold : forall p k g vc bh cb heads l i,
   size (l :: p) <= size (fst (fold_left (ad_head_step p k g vc bh cb) heads (l, i)) :: p).
 Proof.
-  intros p k g vc bh cb heads. induction heads as [|h t IH]; intros l i; simpl; [lia|].
+  intros p k g vc bh cb heads. induction heads as [|h t IH]; intros l i; cbn [fold_left]; [simpl; lia|].
   pose proof (size_ad_head_step p k g vc bh cb l i h) as H.
   destruct (ad_head_step p k g vc bh cb (l, i) h) as [l' i']. simpl fst in H.
   specialize (IH l' i'). lia.
@@ -139,22 +142,20 @@ Proof.
     assert (H2 : size (l1 :: p) < size (l2 :: p)) by apply size_add_clause_node;
     destruct (add_head p l2 s true) as [l3 cb] end.
   simpl fst in H3.
-  match goal with |- context [fold_left ?F heads (l3, 0)] =>
-    pose proof (size_ad_fold p (size p + length (l_nodes l1))
-      match gm with GLocal => length (l_nodes l) | GGlobal => size p + length (l_nodes l) end
-      vc _ cb heads l3 0) as H4 end.
+  match goal with |- context [fold_left (ad_head_step p ?k ?g ?vc' ?bh ?cb') heads (l3, 0)] =>
+    pose proof (size_ad_fold p k g vc' bh cb' heads l3 0) as H4 end.
   lia.
 Qed.
 
 Lemma size_add_stmt : forall gm p l st, size (l :: p) <= size (add_stmt gm p l st :: p).
 Proof.
-  intros gm p l [f a pr|f a b vc|heads b vc|f ar]; simpl add_stmt.
-  - change (app_node p l (NFact (FU f) a pr)) with (fst (app_node p l (NFact (FU f) a pr)), size (l :: p)). cbv beta iota.
-    pose proof (size_add_define p (fst (app_node p l (NFact (FU f) a pr))) (FU f, length a) (size (l :: p))) as H.
-    rewrite size_app in H. lia.
+  intros gm p l [f a pr|f a b vc|heads b vc|f ar]; unfold add_stmt.
+  - pose proof (size_app p l (NFact (FU f) a pr)) as S1.
+    destruct (app_node p l (NFact (FU f) a pr)) as [l1 c]. simpl fst in S1.
+    pose proof (size_add_define p l1 (FU f, length a) c) as H. cbn [size] in *. lia.
   - pose proof (size_compile_body b p l) as H1. destruct (compile_body p l b) as [l1 bn]. simpl fst in H1.
-    pose proof (size_add_clause_node p l1 (FU f) a None bn vc None). lia.
-  - pose proof (size_add_ad gm p l heads b vc). lia.
+    pose proof (size_add_clause_node p l1 (FU f) a None bn vc None). cbn [size] in *. lia.
+  - pose proof (size_add_ad gm p l heads b vc). cbn [size] in *. lia.
   - apply size_add_head.
 Qed.
 
